@@ -113,29 +113,9 @@ func (z *ZodArray[T, R]) MustParse(input any, ctx ...*core.ParseContext) R {
 
 // StrictParse validates input with compile-time type safety.
 func (z *ZodArray[T, R]) StrictParse(input T, ctx ...*core.ParseContext) (R, error) {
-	converted, ok := convertToArrayType[T, R](input)
-	if !ok {
-		var zero R
-		if len(ctx) == 0 {
-			ctx = []*core.ParseContext{core.NewParseContext()}
-		}
-		return zero, issues.CreateTypeConversionError(
-			fmt.Sprintf("%T", input),
-			"array constraint type",
-			any(input),
-			ctx[0],
-		)
-	}
-
-	return engine.ParseComplexStrict[[]any, R](
-		converted,
-		&z.internals.ZodTypeInternals,
-		core.ZodTypeArray,
-		z.extractForEngine,
-		z.extractPtrForEngine,
-		z.validateForEngine,
-		ctx...,
-	)
+	// StrictParse must answer exactly what Parse answers: the statically typed input is a valid
+	// Parse input, so run the one pipeline.
+	return z.Parse(input, ctx...)
 }
 
 // MustStrictParse validates input with compile-time type safety and panics on failure.
